@@ -403,9 +403,10 @@ def neutral_table():
     print('property text (`patch.diff`), its argument and differential demonstration that behaviour is unchanged (`NOTES.md`), the confirmation')
     print('that it applies, compiles and keeps the 34 pinned tests green (`meta.json`, `tools/seed.py neutral-confirm`) and the outcome of all 19')
     print('quick checks on it (`result.json`, `tools/seed.py neutral-all`). `<P>-n<k>` is the first round (local respellings), `<P>-b<k>`, `-c<k>`')
-    print('and `-d<k>` the three held-out rounds (structural refactorings, maintainer-style clean-ups, changes of control-flow shape and of')
-    print('where code lives). A check that alarms on any of them raises a false alarm. DESIGN.md sections 10.6 and 10.7 tell the story,')
-    print('including the one alarm that is kept on purpose (C05-d4).')
+    print('`-d<k>`, `-e<k>` and `-f<k>` the five held-out rounds (structural refactorings, maintainer-style clean-ups, changes of control-flow')
+    print('shape and of where code lives, language features the code had not used, a different maintainer\'s restructurings). A check that')
+    print('alarms on any of them raises a false alarm. DESIGN.md sections 10.6 and 10.7 tell the story, including the one alarm that is kept')
+    print('on purpose (C05-d4).')
     print()
     print('| change | area | what was rewritten | checks that alarm (quick tier) |')
     print('|---|---|---|---|')
